@@ -21,7 +21,7 @@ def run(v):
                                driver={"defs": big, "n": 15000 if v.tier == "quick" else 300000, "gen": gen})
     q = v.tier == "quick"
     cov = merge_cov(cov, run_tree_groups(v, SEED + 780, 10 if q else 50, 4 if q else 5, 1500 if q else 12000, ("alt",),
-                                         cmdline_sig.signature, ledger_every=3 if q else 1), "tree_groups")
+                                         cmdline_sig.signature, ledger_every=3 if q else 1, driver_n=4000 if q else 100000), "tree_groups")
     cov["rule"] = ("choices over 2..4 branches drawn from {req_flag, argument, two-item groups with optional members} under "
                    "bare/optional/many/some, next to other options and positionals; all lines up to maxlen in every order; "
                    "AltExclusive and the greedy-leftmost denotation checked/used by TLC (GroupLine.tla); subcommand "
